@@ -128,7 +128,9 @@ Nested == RecordS("N", <<FieldS("i", Inner), FieldS("li", ArrayS(Inner)), FieldS
 Deep == RecordS("D", <<FieldS("mm", MapS(ArrayS(PLong))), FieldS("n", RecordS("N2", <<FieldS("u", UnionS(<<PStr, PNull>>)), FieldS("v", PLong)>>)), FieldS("e", Prim("int"))>>)
 \* Avro names are case-sensitive: three different fields
 CaseRec == RecordS("C", <<FieldS("id", PLong), FieldS("ID", PStr), FieldS("Id", ArrayS(PLong)), FieldS("x", PLong)>>)
-ProjUniverse == IF Size = "proj" THEN {Wide, Nested, CaseRec} ELSE {Wide, Nested, CaseRec, Deep, ArrayS(Inner), MapS(Inner)}
+\* items that are pointers in Go (nullable records), also when the target keeps none of their fields
+NullItems == RecordS("AN", <<FieldS("l", ArrayS(UnionS(<<PNull, RecordS("J", <<FieldS("p", PLong), FieldS("q", PStr)>>)>>))), FieldS("z", PLong)>>)
+ProjUniverse == IF Size = "proj" THEN {Wide, Nested, CaseRec, NullItems} ELSE {Wide, Nested, CaseRec, NullItems, Deep, ArrayS(Inner), MapS(Inner)}
 
 Level3 == {ArrayS(MapS(ArrayS(PLong))), MapS(UnionS(<<PNull, ArrayS(PStr)>>)), ArrayS(UnionS(<<RecordS("U", <<FieldS("q", PLong)>>), PNull>>)),
            MapS(RecordS("MR", <<FieldS("l", ArrayS(PLong)), FieldS("u", UnionS(<<PNull, PStr>>))>>)),
@@ -137,7 +139,9 @@ Level3 == {ArrayS(MapS(ArrayS(PLong))), MapS(UnionS(<<PNull, ArrayS(PStr)>>)), A
            ArrayS(Prim("bytes")), MapS(Prim("double")), ArrayS(Prim("boolean")), MapS(FixedS("MF", 2)), ArrayS(UnionS(<<Prim("double"), PNull>>))}
 Universe == IF Size \in {"proj", "projfull"} THEN ProjUniverse ELSE IF Size = "quick" THEN Prims \cup {ArrayS(PLong), MapS(PStr), UnionS(<<PNull, PStr>>), UnionS(<<PLong, PNull>>),
                                                RecordS("R", <<FieldS("a", PLong), FieldS("b", PStr)>>), ArrayS(ArrayS(PLong)),
-                                               RecordS("R", <<FieldS("l", ArrayS(PLong)), FieldS("m", MapS(PStr)), FieldS("z", PLong)>>), CaseRec}
+                                               RecordS("R", <<FieldS("l", ArrayS(PLong)), FieldS("m", MapS(PStr)), FieldS("z", PLong)>>), CaseRec,
+                                               ArrayS(Prim("double")), ArrayS(Prim("float")),
+                                               RecordS("O", <<FieldS("h", PLong), FieldS("n", RecordS("I2", <<FieldS("a", PLong), FieldS("b", PStr), FieldS("c", PLong)>>)), FieldS("t", PLong)>>)}
             ELSE Prims \cup Level1 \cup Level2 \cup Level3 \cup {CaseRec}
 
 Init == x \in {[s |-> s, d |-> NilD, e |-> <<>>] : s \in Universe} /\ ph = 0
